@@ -115,6 +115,10 @@ fn c01(tier: Tier) -> Vec<Space> {
         line_typechar(p),
         line_typechar_group(p),
         asmprops::chain(p),
+        asmprops::groups(p),
+        asmprops::soak(p),
+        line_numeric(p),
+        line_lengths(p),
         asmprops::hist_space(p, if tier == Tier::Quick { 4 } else { 5 }),
         asmprops::split2(p),
     ];
@@ -142,6 +146,10 @@ fn c18(tier: Tier) -> Vec<Space> {
         line_typechar(p),
         line_typechar_group(p),
         asmprops::chain(p),
+        asmprops::groups(p),
+        asmprops::soak(p),
+        line_numeric(p),
+        line_lengths(p),
         asmprops::hist_space(p, if tier == Tier::Quick { 4 } else { 5 }),
         asmprops::split2(p),
         asmprops::split_compositions(p),
